@@ -27,6 +27,14 @@ THEOREMS = [
     "JanetModel.Spec.acc_step",
     "JanetModel.Spec.fold_chain_computes",
     "JanetModel.Spec.opreduce_chain_computes",
+    "JanetModel.Spec.opreduce_snapshot_chain_computes",
+    "JanetModel.Spec.opreduce_chain_computesH",
+    "JanetModel.Spec.fold_chain_computesH",
+    "JanetModel.Spec.snapshot_moves_exec",
+    "JanetModel.Spec.stepH_id",
+    "JanetModel.Spec.execH_id",
+    "JanetModel.Props.C15.variadic_snapshot_emitted_eq_generic",
+    "JanetModel.Props.C15.Witness.assign3_respects",
     "JanetModel.Props.C15.opreduce_rows_ok",
     "JanetModel.Props.C15.variadic_emitted_eq_generic",
     "JanetModel.Spec.cmpSem_eq_goInline",
@@ -177,6 +185,10 @@ def run(ctx, quick, broken, janet, scratch):
             cov["distinct_nontrivial"] = cov.get("distinct_nontrivial", 0) + cc.pop("call_correspondence_distinct")
             cov.update(cc)
             cov.update(fixed_correspondence(ctx, quick, broken, janet, scratch, exe, tree, text))
+            sc = snapshot_correspondence(ctx, quick, broken, janet, scratch, exe, tree)
+            cov["evaluations"] = cov.get("evaluations", 0) + sc["snapshot_chain_compared"]
+            cov["distinct_nontrivial"] = cov.get("distinct_nontrivial", 0) + sc["snapshot_chain_compared"]
+            cov.update(sc)
         except ExtractError as e:
             msg = "translator (mnemonics / names): %s" % e
             broken.append(msg)
@@ -327,6 +339,83 @@ def correspondence(ctx, quick, broken, janet, scratch, exe, tree):
     return {"model_correspondence_cases": len(cases), "model_correspondence_completed": len(impl), "model_correspondence_diffs": len(diffs),
             "model_correspondence_first_diffs": diffs[:5], "model_correspondence_chains_with_registers": nchain, "evaluations": 3 * len(impl) + nchain, "distinct_nontrivial": len(set(gen.model_driver_line(c) for c in cases)),
             "model_correspondence_samples": [gen.model_driver_line(cases[i]) for i in (1, len(cases) // 2, len(cases) - 1)]}
+
+
+# --------------------------------------------------------------------------------------------- chains with `var` operands (snapshot moves)
+def snapshot_cases(rng, names, quick):
+    """[(tagName, janet name, [kind])], kind = 'v' | 'm' | 'c:<int>'; first operand a register, at least one `var`"""
+    import itertools
+    imms = [0, 1, 2, 3, 127, -128, -1, 5]
+    out = []
+    for tag in sorted(names):
+        pats = []
+        for n in (2, 3, 4):
+            for pat in itertools.product("vmc", repeat=n):
+                if pat[0] != "c" and "m" in pat:
+                    pats.append(pat)
+        for _ in range(6 if quick else 60):
+            n = 5 + rng.below(4)
+            pat = tuple("vmc"[rng.below(3)] for _ in range(n))
+            if pat[0] == "c":
+                pat = ("m",) + pat[1:]
+            if "m" not in pat[2:]:
+                pat = pat[:-1] + ("m",)
+            pats.append(pat)
+        for pat in pats:
+            out.append((tag, names[tag], [k if k != "c" else "c:%d" % imms[rng.below(len(imms))] for k in pat]))
+    return out
+
+
+def snapshot_correspondence(ctx, quick, broken, janet, scratch, exe, tree):
+    """(D) `opreduce` with `var` operands: the FULL instruction list of the real compiler - the `movn` of the `(var ..)` forms, the snapshot
+    moves of the operands from the third on, the chain, `ret` - against `Spec.emitOpreduceSnap` (driver `snapchain`)."""
+    import re
+    from vlib.core import run_cmd
+    here = os.path.dirname(os.path.abspath(__file__))
+    names = gen_cfuns.variadic_names(tree)
+    mnem = gen_cfuns.mnemonics(tree)
+    rng = ctx.rng.fork("snapshot")
+    cases = snapshot_cases(rng, names, quick)
+    model = ctx.model(["snapchain %s %s" % (c[0], " ".join(c[2])) for c in cases], exe=exe)
+    keep = [i for i, c in enumerate(cases) if model[i].startswith("code=") and not model[i].startswith("code=-")]
+    pre = open(os.path.join(here, "routes.janet")).read() + open(os.path.join(here, "snap.janet")).read()
+    jk = lambda k: ":" + k if k in ("v", "m") else k[2:]
+    p = os.path.join(scratch, "snap.janet")
+    with open(p, "w") as f:
+        f.write(pre + "\n" + "\n".join("(S %d %s [%s])" % (i, cases[i][1], " ".join(jk(k) for k in cases[i][2])) for i in keep)
+                + "\n(file/flush stdout)\n")
+    rc, out, err = run_cmd([janet, p], timeout=600, env=dict(os.environ, ASAN_OPTIONS="detect_leaks=0:abort_on_error=0"))
+    impl = {}
+    for line in out.decode(errors="replace").splitlines():
+        m = re.match(r"^(\d+) SNAP (.*)$", line)
+        if m:
+            impl[int(m.group(1))] = full_ops(m.group(2), mnem)
+    diffs = []
+    nsnap = 0
+    for i in keep:
+        c = cases[i]
+        m = re.match(r"^code=(\S*) target=(\d+)$", model[i])
+        if i not in impl or not m:
+            diffs.append({"case": "snapchain %s %s" % (c[0], " ".join(c[2])), "model": model[i], "impl": impl.get(i)})
+            continue
+        regs = [k for k in c[2] if k in ("v", "m")]
+        np_ = len(regs)
+        prologue = ["JOP_MOVE_NEAR:%d:%d" % (np_ + j, pi) for j, pi in enumerate([q for q, k in enumerate(regs) if k == "m"])]
+        want = prologue + m.group(1).split(",") + ["JOP_RETURN:%s" % m.group(2)]
+        nsnap += sum(1 for k in c[2][2:] if k == "m")
+        if impl[i] != want:
+            diffs.append({"case": "snapchain %s %s" % (c[0], " ".join(c[2])), "field": "snapshot-chain-with-registers", "model": want, "impl": impl[i]})
+    if rc != 0:
+        msg = "snapshot-chain correspondence: implementation run failed: %s" % err.decode(errors="replace")[-300:]
+        broken.append(msg)
+        ctx.broken.append(msg)
+    if diffs:
+        msg = "correspondence Spec.emitOpreduceSnap / implementation: %d differing instruction lists, first %r" % (len(diffs), diffs[0])
+        broken.append(msg)
+        ctx.broken.append(msg)
+    return {"snapshot_chain_cases": len(cases), "snapshot_chain_compared": len(keep) - len([d for d in diffs if "field" not in d]),
+            "snapshot_chain_snapshot_moves": nsnap, "snapshot_chain_diffs": len(diffs), "snapshot_chain_first_diffs": diffs[:3],
+            "snapshot_chain_samples": ["snapchain %s %s" % (cases[i][0], " ".join(cases[i][2])) for i in keep[:1] + keep[len(keep) // 2:len(keep) // 2 + 1] + keep[-1:]]}
 
 
 # --------------------------------------------------------------------------------------------- apply / splice correspondence
